@@ -28,7 +28,7 @@ TRUSTED = ["reader contracts of C03 (_readline/_readsegment/_readvalue) used at 
            "meta-lemma C01.compose: Sync at every public exit => every byte a call parses answers its own commands"]
 ASSUMPTIONS = ["the server answers a command that does not carry the noreply marker with exactly one terminator-ended unit",
                "faults are Exception-class (asynchronous interruptions are C10)"]
-NOT_COVERED = ["stats, cache_memlimit (reply is a block of STAT lines read through _fetch_cmd's other shape)",
+NOT_COVERED = ["stats (reply is a block of STAT lines read through _fetch_cmd's other shape; cache_memlimit is under contract: wrapper + _fetch_cmd for its verb)",
                "raw_command with a caller-chosen end token (unit boundary is whatever the caller says)",
                "PooledClient / HashClient wrappers: C09 shows a failed pooled client is destroyed and closed; HashClient pending",
                "'never blocks' beyond 'performs no read': termination is not decided by this family"]
@@ -50,6 +50,7 @@ def build(E, tier):
     cm.verify_public_fetch_many(E)
     cm.verify_set_many(E)
     cm.verify_public_admin(E)
+    cm.verify_cache_memlimit(E)
 
 
 REPLAY_UNDECIDED = True
